@@ -334,7 +334,8 @@ def crosscheck_models(rep):
                 sx = SymFP(symrun.fpval(x, FMT[t]), t)
                 with numpy.errstate(all="ignore"):
                     want_fre = int(numpy.frexp(x)[1])
-                    got_fre = z3.simplify(symrun.frexp_exponent(sx).e)
+                    fre = symrun.frexp_exponent(sx)  # folds to a Python int when the operand is concrete
+                    got_fre = z3.BitVecVal(fre, W) if isinstance(fre, int) else z3.simplify(fre.e)
                     n += 1
                     if not z3.is_true(z3.simplify(got_fre == z3.BitVecVal(want_fre, W))):
                         bad.append(("frexp", tname(t), b, want_fre, str(got_fre)))
